@@ -4,10 +4,14 @@
    Phi k j = value of its k-th function on snapshot j (coordinate_major / function_major are the
    instances Phi_i k j = phi_k(x[i,j]) resp. phi_i(x[k,j]) with the optional leading 1; the tables are
    computed by the harness from the real Function objects).
-   PARTIAL: the cross approximation (hocur) is outside the proof (side check only). *)
+   For the cross approximation (hocur) the matrix SKELETON IDENTITY is proved (C15_skeleton): a matrix of rank at most r is
+   reproduced exactly by the cross through r rows and columns whose restrictions are invertible, A = A[:,J] W A[I,:] with W
+   the inverse of the intersection -- the step hocur applies at every bond.
+   PARTIAL: the choice of the rows and columns (maximum-volume search, linear-independence tests) and the composition over
+   the bonds are outside the proof (side check only; known finding F26). *)
 From Coq Require Import ZArith List Lia Arith.
 Import ListNotations.
-Require Import Ring Sums Matrix Core Chain DataTensor DataProof.
+Require Import Ring Sums Matrix Core Chain DataTensor DataProof SkeletonProof.
 Open Scope cr_scope.
 
 (* entry (k_1, .., k_p, j) of the transformed data tensor = product of the selected functions at snapshot j *)
@@ -45,3 +49,27 @@ Definition exM2 : @mode ZIring := (3%nat, fun k j => (Z.of_nat (2 * k + j), 1%Z)
 Example ex_entries : elem (basis_decomposition 2 [exM1; exM2]) [1%nat; 2%nat; 1%nat] [0%nat; 0%nat; 0%nat] =
   pvals [exM1; exM2] [1%nat; 2%nat] 1%nat.
 Proof. vm_compute. reflexivity. Qed.
+
+(* the skeleton (CUR) identity: A = X Y of rank <= r, L a left inverse of X on the selected rows, Rg a right inverse of Y on the
+   selected columns, W = Rg L (= the inverse of the intersection A[I, J]) *)
+Theorem C15_skeleton (R : cring) (r : nat) (X Y : M R) (rowsel colsel : nat -> nat) (L Rg : M R) :
+  (forall p q, (p < r)%nat -> (q < r)%nat -> sum r (fun k => L p k * X (rowsel k) q) = delta p q) ->
+  (forall p q, (p < r)%nat -> (q < r)%nat -> sum r (fun k => Y p (colsel k) * Rg k q) = delta p q) ->
+  forall i j,
+  mmul r (mmul r (fun i0 a => Amat r X Y i0 (colsel a)) (Wmat r L Rg)) (fun b j0 => Amat r X Y (rowsel b) j0) i j = Amat r X Y i j.
+Proof. exact (skeleton r X Y rowsel colsel L Rg). Qed.
+Print Assumptions C15_skeleton.
+
+(* non-vacuity over Z: X = [[1,0],[0,1],[1,1]], Y = [[1,2,0],[0,1,1]], rows {0,1}, columns {0,1}; Y_J = [[1,2],[0,1]] has the
+   inverse [[1,-2],[0,1]] *)
+Example ex_skeleton :
+  let X : M Zring := fun i k => match i, k with 0%nat, 0%nat => 1 | 1%nat, 1%nat => 1 | 2%nat, _ => 1 | _, _ => 0 end%Z in
+  let Y : M Zring := fun k j => match k, j with 0%nat, 0%nat => 1 | 0%nat, 1%nat => 2 | 1%nat, 1%nat => 1 | 1%nat, 2%nat => 1 | _, _ => 0 end%Z in
+  let L : M Zring := fun p q => if Nat.eqb p q then 1%Z else 0%Z in
+  let Rg : M Zring := fun p q => match p, q with 0%nat, 0%nat => 1 | 0%nat, 1%nat => (-2) | 1%nat, 1%nat => 1 | _, _ => 0 end%Z in
+  (forall p q, (p < 2)%nat -> (q < 2)%nat -> @sum Zring 2 (fun k => (L p k * X k q)%Z) = @delta Zring p q) /\
+  (forall p q, (p < 2)%nat -> (q < 2)%nat -> @sum Zring 2 (fun k => (Y p k * Rg k q)%Z) = @delta Zring p q) /\
+  @Amat Zring 2 X Y 2%nat 2%nat = 1%Z.
+Proof.
+  repeat split; try (intros p q Hp Hq; destruct p as [|[|p]]; destruct q as [|[|q]]; try lia; vm_compute; reflexivity).
+Qed.
